@@ -19,9 +19,9 @@ TABLE = {
     "Perturb_c07_quick": dict(BASE, PKinds="KGarb", MaxEdits=1, DumpMod=8),
     "Perturb_c07_thorough": dict(BASE, PKinds="KGarb", MaxEdits=1, MaxStmts=4),
     "Perturb_c07_sim": dict(SIM, PKinds="KGarbLay", MaxEdits=4),
-    "Perturb_c08_quick": dict(BASE, PKinds="KStruct", MaxEdits=1, ConKinds="NestCons", DumpMod=8),
+    "Perturb_c08_quick": dict(BASE, PKinds="KStruct", MaxEdits=1, ConKinds="NestCons", DumpMod=11),
     "Perturb_c08_thorough": dict(BASE, PKinds="KStruct", MaxEdits=1, ConKinds="NestCons", MaxStmts=4),
-    "Perturb_c08_sim": dict(SIM, PKinds="KStruct", MaxEdits=1),
+    "Perturb_c08_sim": dict(SIM, PKinds="KStructCmt", MaxEdits=3),
     "Perturb_c13_quick": dict(BASE, PKinds="KInc", MaxEdits=2, DumpMod=32),
     "Perturb_c13_thorough": dict(BASE, PKinds="KInc", MaxEdits=2, MaxStmts=4),
     "Perturb_c13_sim": dict(SIM, PKinds="KInc", MaxEdits=3),
